@@ -37,7 +37,7 @@ class Derivative(Contract):
                    "designation kinds enumerated: position, name, indeterminate polynomial; one or two successive variables; "
                    "positions are non-negative (negative positions: bounded check only)")
 
-    KINDS = (("position",), ("name",), ("polynomial",), ("position", "name"), ("name", "name"), ())
+    KINDS = (("position",), ("name",), ("polynomial",), ("position", "name"), ("name", "name"), ("position", "position"), ())
     DEEP_KINDS = ()
 
     def cases(self):
@@ -56,7 +56,7 @@ class Derivative(Contract):
                 for k, kind in enumerate(kinds):
                     if kind == "position":
                         v = ctx.int(f"position{k}")
-                        ctx.assume(z3.And(0 <= v, v < P.D))       # precondition: a valid position (only used for the first variable)
+                        ctx.assume(z3.And(0 <= v, v < P.D))       # precondition: a valid position among the argument's indeterminates
                         ex.ghost["designated"].append(("position", v))
                     elif kind == "name":
                         v = ctx.const(f"name{k}", Name)
@@ -67,7 +67,9 @@ class Derivative(Contract):
                         ctx.assume(q.wf(ctx))
                         ctx.assume(ctx.forall_range(0, q.N, lambda t: keyok(q.row(t), q.D)))
                         d0, t0 = ctx.int("d0"), ctx.int("t0")
-                        live = lambda t: z3.Or(z3.Not(ctx.forall_idx(lambda i: q.C(t, i) == 0, q.shape)), mzero(q.row(t), q.D))
+                        # (every other stored term has all-zero coefficients - also the constant term, which the cleaner keeps
+                        # even when it is zero: (q0+1)-1 is such a polynomial)
+                        live = lambda t: z3.Not(ctx.forall_idx(lambda i: q.C(t, i) == 0, q.shape))
                         ctx.assume(z3.And(0 <= d0, d0 < q.D, 0 <= t0, t0 < q.N, live(t0)))
                         ctx.assume(ctx.forall_range(0, q.N, lambda t: z3.Implies(live(t), t == t0)))
                         ctx.assume(ctx.forall_range(0, q.D, lambda d: expo(q.row(t0), d) == z3.If(d == d0, 1, 0)))
@@ -177,7 +179,11 @@ class Derivative(Contract):
         # designation: the variable differentiated in step k is the one designated by the k-th argument
         for k, ((kind, want), (cur, idx, x, _)) in enumerate(zip(ex.ghost["designated"], steps)):
             if kind == "position":
-                ex.oblige(f"post.variable[{k}].is_the_one_at_the_given_position", idx == want, "post")
+                # a position designates an indeterminate of the ARGUMENT (in every step, whatever the alignment after an earlier
+                # step did to the order of the names)
+                ex.oblige(f"post.variable[{k}].is_the_one_at_the_given_position", x == nat(P.names, want), "post")
+                if k == 0:
+                    ex.oblige(f"post.variable[{k}].position_used_as_given", idx == want, "post")
             else:
                 ex.oblige(f"post.variable[{k}].is_the_designated_name", x == want, "post")
         # value: successive formal partial derivatives
